@@ -111,10 +111,18 @@ def lag_case(rng):
         rng.choice([1, 8, 64]), msgs)]
 
 
+def early_burst_cases(tier):
+    """a fresh DEALER sends a burst right after connect() to a ROUTER that already sits in recv (multi-thread runtime): the
+    first messages arrive while the ROUTER is still finalising the peer's identity; many repetitions (a rare interleaving)"""
+    msgs = ";".join("0p5x%d" % (i + 1) for i in range(40))
+    return [["stream tr=tcp,rt=mt,when=before,pace=0 type=DEALER type=ROUTER %s" % msgs] for _ in range(300 if tier == "quick" else 4000)]
+
+
 def gen(rng, tier):
     n = 40 if tier == "quick" else 600
     cases = [carry_case(rng) for _ in range(n // 4)]
     cases += [lag_case(rng) for _ in range(n // 5)]
+    cases += early_burst_cases(tier)
     cases += [one_case(rng, tier, big_ok=(tier != "quick" or i % 5 == 0)) for i in range(n)]
     return cases
 
